@@ -423,8 +423,12 @@ def role_obs(fx, which=("mutating", "fidelity"), cfgname="A"):
                         None if ok else dict(role=got, required=want[i])))
     obs = []
     counters = {}
+    import views as _views
+    role_units = set(_views.roles(fx).values())
     for sid, evs in sorted(per_site.items(), key=lambda kv: tuple(str(x) for x in kv[0])):
-        use = [e for e in evs if e[0]] or evs
+        # where a thread role runs the site, that is where it is judged (all operands have their provenance there);
+        # failing that, where its function is inlined into a caller; failing that, in its own function
+        use = [e for e in evs if e[4] in role_units] or [e for e in evs if e[0]] or evs
         bad = [e for e in use if not e[1]]
         inl, ok, trivial, what, unit, wit = (bad or use)[0]
         ok = not bad
